@@ -702,8 +702,9 @@ static Plan gen_plan(const string &cfg, uint64_t seed, long long index) {
             if (cfg == "nofault-longfile") nl = 65500 + (int)sim_below(&w, 200);
             vector<Op> lines;
             if (huge && sim_below(&w, 3) != 0) {
-                static const size_t HL[] = { 16383, 16384, 16385, 20000, 32768, 65535, 65536, 65537, 70000, 100000, 131072 };
-                Op lo; lo.k = "LINE"; size_t n = HL[sim_below(&w, 11)];
+                // up to a few MiB: a line (or four times a line) larger than the stack, than 2^20, than a pipe buffer
+                static const size_t HL[] = { 16383, 16384, 16385, 20000, 32768, 65535, 65536, 65537, 70000, 100000, 131072, 1048576, 2200000, 3145728 };
+                Op lo; lo.k = "LINE"; size_t n = HL[sim_below(&w, sim_below(&w, 4) == 0 ? 14 : 11)];
                 lo.s = sim_below(&w, 3) ? rnd_ascii(w, n) : rnd_utf8(w, n);
                 if (sim_below(&w, 4) == 0) for (size_t i = 0; i < lo.s.size(); i += 1 + sim_below(&w, 400)) lo.s[i] = (char)(1 + sim_below(&w, 31));
                 lo.t = (int)sim_below(&w, 2);
